@@ -10,6 +10,7 @@
 //!   `N <path hex> <normalize_path hex> <normalize_path_with_current_dir hex>`
 //!   `G <require hex> <source hex> <get_relative_path(.., true)> <write_require_path(require)>`
 //!   `E <cur cfg> <tgt cfg> <layout> <mask> <src hex> <literal hex> <hook literal> <rule literal> <process literal>`
+//!   `M <cfg> <files|folders|mixed> <order> <spelling hex> <expected markers> <distinct|same> <markers in the bundle>`   two modules, same spelling
 //!   `D <cfg> <layout> <mask> <src hex> <literal hex> <find_require by hook> <files whose marker is in the bundle made by process>`
 //! results: `<hex path>`, `!nf` (not found), `!unk` (unknown source), `!empty`, `!none`, `!err<hex message>`; `-` = empty string / not run.
 
@@ -114,7 +115,12 @@ fn resources_for(layout: &Layout, mask: usize) -> Resources {
     }
     for (dir, aliases) in &layout.rc {
         let map: BTreeMap<&str, &str> = aliases.iter().cloned().collect();
-        let content = format!(r#"{{"aliases":{}}}"#, serde_json::to_string(&map).unwrap());
+        // a .luaurc without aliases: no `aliases` key at all, or an empty map (deeper directories)
+        let content = if aliases.is_empty() && !dir.contains("deep") {
+            r#"{"languageMode":"strict"}"#.to_owned()
+        } else {
+            format!(r#"{{"aliases":{}}}"#, serde_json::to_string(&map).unwrap())
+        };
         resources
             .write(Path::new(dir).join(".luaurc"), &content)
             .unwrap();
@@ -419,6 +425,79 @@ fn run_bundle(cfg: &Cfg, layout: &Layout, mask: usize, src: &str, literal: &str)
     );
 }
 
+/// A bundle of an entry and two modules in DIFFERENT folders that write the SAME require spelling:
+/// each module must inline the file the locator resolves from THAT module.
+fn run_multi_bundle(cfg: &Cfg, kind: &str, order: usize, spelling: &str) {
+    hooks::c15::clear_luau_configuration_cache();
+    let resources = Resources::from_memory();
+    let targets = ["util.lua", "a/util.lua", "c/util.lua", "c/b/util.lua", "x.lua", "c/x.lua", "a/x.lua", "c/b/x.lua", "util/init.lua"];
+    for t in targets {
+        resources.write(t, &format!("return {:?}", t)).unwrap();
+    }
+    let folder_file = if cfg.luau { "init" } else { cfg.mfn };
+    let (folder_a, folder_b) = (format!("a/{}.lua", folder_file), format!("c/b/{}.lua", folder_file));
+    let (mod_a, req_a, mod_b, req_b) = match kind {
+        "files" => ("a/mod.lua", "./a/mod", "c/b/mod.lua", "./c/b/mod"),
+        "folders" => (folder_a.as_str(), "./a", folder_b.as_str(), "./c/b"),
+        _ => ("a/mod.lua", "./a/mod", folder_b.as_str(), "./c/b"),
+    };
+    for m in [mod_a, mod_b] {
+        resources
+            .write(m, &format!("return {{ {:?}, require({}) }}\n", m, lua_quote(spelling)))
+            .unwrap();
+    }
+    let (first, second) = if order == 0 { (req_a, req_b) } else { (req_b, req_a) };
+    let entry = format!(
+        "local one = require({})\nlocal two = require({})\nreturn {{ one, two }}\n",
+        lua_quote(first),
+        lua_quote(second)
+    );
+    resources.write("main.lua", &entry).unwrap();
+    let mode = cfg.mode();
+    // what the locator says, module by module
+    let mut expected: Vec<String> = Vec::new();
+    let mut failed = false;
+    let mut own: Vec<String> = Vec::new();
+    for m in [mod_a, mod_b] {
+        expected.push(h(m));
+        match find(cfg, &mode, m, spelling, &resources) {
+            Ok(p) => {
+                let normalized = hooks::normalize_path(&p);
+                own.push(hp(&normalized));
+                expected.push(hp(&normalized));
+            }
+            Err(_) => failed = true,
+        }
+    }
+    let config = format!(r#"{{"rules":[],"bundle":{{"require_mode":{}}}}}"#, cfg.json());
+    let got = match run_process(&resources, "", &config, "main.lua") {
+        Ok(output) => {
+            let mut markers: Vec<String> = targets
+                .iter()
+                .map(|f| f.to_string())
+                .chain([mod_a.to_string(), mod_b.to_string()])
+                .filter(|f| output.contains(&format!("{:?}", f)))
+                .map(|f| h(&f))
+                .collect();
+            markers.sort();
+            if markers.is_empty() { "-".to_owned() } else { markers.join(",") }
+        }
+        Err(e) => e,
+    };
+    expected.sort();
+    expected.dedup();
+    println!(
+        "M {} {} {} {} {} {} {}",
+        cfg.id,
+        kind,
+        order,
+        h(spelling),
+        if failed { "!err".to_owned() } else { expected.join(",") },
+        if own.len() == 2 && own[0] != own[1] { "distinct" } else { "same" },
+        got
+    );
+}
+
 // ---- the enumeration
 
 fn cfgs() -> Vec<Cfg> {
@@ -456,6 +535,9 @@ fn cfgs() -> Vec<Cfg> {
         // the documented spelling with a leading `./`
         c("PG", false, "init", Some(""), &[("@value", "./src/value/init.luau"), ("@pkg", "./packages")], false),
         c("UG", true, "init", Some(""), &[("@value", "./src/value/init.luau"), ("@pkg", "./packages")], false),
+        // a configured alias that an OUTER .luaurc also declares, behind a nearer alias-less .luaurc
+        c("PQ", false, "init", Some(""), &[("@lib", "vendorB")], true),
+        c("UQ", true, "init", Some(""), &[("@lib", "vendorB")], true),
         // the darklua configuration is in `project/` (an ancestor of the sources) ...
         c("P9", false, "init", Some("project"), &[("vendor", "vendor"), ("@cfg", "./packages")], true),
         c("U9", true, "init", Some("project"), &[("@vendor", "vendor"), ("@cfg", "./packages")], true),
@@ -504,6 +586,18 @@ fn layouts() -> Vec<Layout> {
         &["src/pkg/init.spec.luau", "src/pkg/init.server.luau", "src/pkg/init.luau", "src/pkg/index.spec.lua",
           "src/pkg/index.lua", "src/a.lua", "init.spec.luau"],
     ));
+    // the nearest .luaurc wins even when it declares no aliases
+    let mut nearest = l(
+        "LQ",
+        &["vendorA/x.lua", "vendorB/x.lua", "vendorB/x.luau", "src/vendorA/x.lua", "src/vendorB/x.lua"],
+        &["src/main.luau", "src/init.luau", "src/deep/mod.lua", "tools/run.lua", "main.lua"],
+    );
+    nearest.rc = vec![
+        ("", vec![("lib", "vendorA"), ("only", "vendorA")]),
+        ("src", vec![]),
+        ("src/deep", vec![]),
+    ];
+    list.push(nearest);
     // targets of file-valued sources
     list.push(l(
         "LV",
@@ -562,6 +656,8 @@ const PROJECT: &[&str] = &[
     "../packages/lib", "../../packages/lib", "./local/lib", "@unknown/lib", "../vendor/lib", "./main",
 ];
 
+const NEAREST: &[&str] = &["@lib/x", "@lib/x.lua", "@only/x", "../vendorB/x", "../vendorA/x", "./vendorB/x", "@lib", "../../vendorB/x"];
+
 const FILE_VALUED: &[&str] = &[
     "@value", "@valuex", "@vdir", "@vdir/init", "@vdir/init.luau", "./value", "./value/init", "./value/init.luau", "../value",
     "./init", "./init.luau", "@self/value", "@b", "@bx", "@lib/b", "@lib/b.lua", "../lib/b", "../lib/b.lua", "../../lib/b.lua",
@@ -577,6 +673,9 @@ fn lits_for(layout: &str, quick: bool) -> Vec<&'static str> {
     }
     if layout == "LV" {
         return FILE_VALUED.to_vec();
+    }
+    if layout == "LQ" {
+        return NEAREST.to_vec();
     }
     if !quick {
         return COMMON.to_vec();
@@ -595,6 +694,7 @@ fn lits_for(layout: &str, quick: bool) -> Vec<&'static str> {
         "LH" => INIT_LIKE,
         "LP" => PROJECT,
         "LV" => FILE_VALUED,
+        "LQ" => NEAREST,
         "LR" => &["@pkg/b", "pkg/b", "@root/src/a", "@root/pkg/b", "@here/c", "@unknown/b", "./b", "../pkg/b", "../lib/b"],
         _ => COMMON,
     };
@@ -611,6 +711,7 @@ fn srcs_for(layout: &str) -> Vec<&'static str> {
                      "src/pkg/index.lua", "src/a.lua", "init.spec.luau"],
         "LP" => vec!["project/src/main.lua", "project/src/init.luau", "project/src/deep/mod.lua", "project/src/deep/init.lua", "tools/run.lua"],
         "LV" => vec!["src/a.lua", "src/init.lua", "main.lua", "src/value/helper.lua", "src/sub/init.luau"],
+        "LQ" => vec!["src/main.luau", "src/init.luau", "src/deep/mod.lua", "tools/run.lua", "main.lua"],
         "LF" => vec!["/project/src/a.lua", "/project/src/init.lua", "/project/main.lua", "/main.lua", "/init.lua"],
         _ => vec!["src/a.lua", "src/init.lua", "main.lua"],
     }
@@ -628,6 +729,7 @@ fn cfgs_for(layout: &str) -> Vec<&'static str> {
         "LH" => vec!["P0", "U0", "P1"],
         "LP" => vec!["P9", "U9", "PA", "UA"],
         "LV" => vec!["PF", "UF", "PG", "UG"],
+        "LQ" => vec!["PQ", "UQ"],
         "LR" => vec!["P6", "U6", "P3", "U3"],
         _ => vec![],
     }
@@ -646,6 +748,7 @@ fn pairs_for(layout: &str) -> Vec<(&'static str, &'static str)> {
         "LH" => vec![("P0", "U0"), ("U0", "P0"), ("P1", "U0"), ("U0", "P1")],
         "LP" => vec![("P9", "U9"), ("U9", "P9"), ("PA", "UA"), ("UA", "PA")],
         "LV" => vec![("PF", "UF"), ("UF", "PF"), ("PG", "UG"), ("UG", "PG"), ("PF", "PF"), ("UF", "UF")],
+        "LQ" => vec![("PQ", "UQ"), ("UQ", "PQ")],
         "LR" => vec![("P6", "U6"), ("U6", "P6")],
         _ => vec![],
     }
@@ -741,6 +844,16 @@ fn main() {
                     println!("K {} {} {}", l.id, h(dir), pairs(aliases));
                 }
             }
+            for id in ["P7", "U7", "P1"] {
+                let c = cfg(id);
+                for kind in ["files", "folders", "mixed"] {
+                    for order in [0, 1] {
+                        for spelling in ["./util", "../x", "@self/util", "./util.lua", "../util", "./x"] {
+                            run_multi_bundle(&c, kind, order, spelling);
+                        }
+                    }
+                }
+            }
             print_candidates();
             print_normalize();
             print_relative();
@@ -776,7 +889,7 @@ fn main() {
                         }
                     }
                 }
-                if l.id == "LP" {
+                if l.id == "LP" || l.id == "LQ" {
                     let full = (1usize << l.optional.len()) - 1;
                     for id in cfgs_for(l.id) {
                         let c = cfg(id);
